@@ -321,13 +321,17 @@ def c12_r4(ctx):
             elif verdict == 'unknown':
                 ctx.note('C12.R4: index expression `%s` not classified (neither a range nor a constant)' % shown)
             # the update happens for every data element: only the loop condition and the data edge guard it
-            from ..pathcond import simplify as _simp
-            dnf = _simp(q.cond_of_block(facts, h, b3), merge_enums=True)
-            extra = [a for c in dnf for a in c if not (a[0] in ('is', 'isin') and (a[1] == 'el' or 'Iterator::next' in a[1] or 'next(' in a[1]))]
-            extra = [a for a in extra if not (a[0] == 'cmp' and 'len(' in a[1] + a[2])]
+            dnf = q.cond_of_block(facts, h, b3)
+
+            def structural(a):
+                # the data edge, the loop over the slots and the slot-allocation loop are not conditions on the element
+                return (a[0] in ('is', 'isin') and (a[1] == 'el' or 'Iterator::next' in a[1] or 'next(' in a[1])) or \
+                    (a[0] == 'cmp' and 'len(' in a[1] + a[2])
+            uncond = q.covers_all(dnf, ignore=structural)
+            extra = [] if uncond else sorted({show_dnf([[a]])[0] for c in dnf for a in c if not structural(a)})
             if h.path == pr.path and extra:
                 ctx.viol('%s|update-conditional' % h.path, t3['at'],
-                         'a data element is accumulated only under %s: other elements are dropped from their groups' % show_dnf([frozenset(extra)]), None)
+                         'a data element is accumulated only under conditions on %s: other elements are dropped from their groups' % extra, None)
 
 
 @rule('C14', 'R4', 'a session closed by the gap check is emitted whatever element triggered the check (the taken slot always reaches the return value)')
